@@ -3,7 +3,7 @@ on generated values of the prelude's domain (None, bool, int, str, lists of ints
 import driver
 from core import rng
 
-OPS1 = ["truthy", "not", "len", "max", "min", "asbool", "isinstance_bool", "isinstance_int", "isinstance_str"]
+OPS1 = ["truthy", "not", "bool", "len", "max", "min", "asbool", "isinstance_bool", "isinstance_int", "isinstance_str"]
 OPS2 = ["and", "or", "eq", "ne", "lt", "le", "gt", "ge", "is", "isnot", "in", "notin", "add", "sub"]
 
 
@@ -45,6 +45,8 @@ def py_eval(f, args):
             return bool(a[0])
         if f == "not":
             return not a[0]
+        if f == "bool":
+            return bool(a[0])
         if f == "and":
             return from_py(a[0] and a[1], args[1])
         if f == "or":
